@@ -107,7 +107,7 @@ StepClauses(p, r) ==
     FailClause("C04.IdleEmpty",
                NothingPending' =>
                   /\ que' = {} /\ Len(r.st.view_todo) = 0 /\ Len(r.st.view_doing) = 0
-                  /\ Len(r.st.busy) = Count(r.st.inflight, LAMBDA m : TRUE) /\ r.st.crew_busy = Len(r.st.busy))
+                  /\ Len(r.st.busy) = 0 /\ r.st.crew_busy = 0)
     \cup
     FailClause("C04.Progress",
                (r.ev = "Tick" /\ r.st.active /\ ~r.st.paused) =>
@@ -139,7 +139,7 @@ StepClauses(p, r) ==
 ModelStep(r) ==
     CASE r.ev = "Run"   -> Run(ToSet(r.args.S), ToSet(r.args.T)) \/ UNCHANGED <<todo, doing, que, fly>>
       [] r.ev = "Tick"  -> Tick \/ (UNCHANGED <<todo, doing, que, fly>> /\ \A a \in Alg : Release[a] = {})
-      [] r.ev = "Reply" -> Reply(r.args.alg, r.args.t, r.args.out, ToSet(r.args.new))
+      [] r.ev = "Reply" -> Reply(r.args.alg, r.args.t, r.args.out, ToSet(r.args.new), r.obs.reply[1].stale)
       [] r.ev = "Reload" -> Reload(ToSet(r.args.S))
       [] OTHER -> TRUE
 
